@@ -172,8 +172,12 @@ def transform_py(src, fname, which):
     return out
 
 
-def build(which, dst):
+def build(which, dst, patch=None):
     shutil.copytree(os.path.join(REPO, "src"), os.path.join(dst, "src"), ignore=shutil.ignore_patterns("__pycache__", "*.so", "tests"))
+    if patch:
+        r = subprocess.run(["patch", "-p1", "-s", "-d", dst, "-i", patch], capture_output=True, text=True)
+        if r.returncode != 0:
+            raise RuntimeError(f"patch failed: {r.stdout[:200]}")
     for f in ("pyproject.toml", "README.md"):
         if os.path.exists(os.path.join(REPO, f)):
             shutil.copy(os.path.join(REPO, f), dst)
@@ -208,7 +212,38 @@ def run_check(pid, repo):
     return pid, r.returncode, lines
 
 
+def seeded(transforms):
+    """Every seeded breakage must still be reported after the rewrite (the rewrites must not hide a violation)."""
+    import json
+    sd = os.path.join(HERE, "seeded")
+    names = sorted(n for n in os.listdir(sd) if os.path.exists(os.path.join(sd, n, "patch.diff")))
+    which = set(transforms)
+
+    def one(n):
+        meta = json.load(open(os.path.join(sd, n, "meta.json")))
+        pid = (meta.get("detected_by") or {}).get("check") or n.split("-")[0]
+        dst = f"/dev/shm/refuzz_seed_{n}"
+        shutil.rmtree(dst, ignore_errors=True)
+        os.makedirs(dst)
+        try:
+            build(which, dst, patch=os.path.join(sd, n, "patch.diff"))
+            _, rc, lines = run_check(pid, dst)
+        except Exception as ex:     # noqa: BLE001
+            rc, lines = 9, [str(ex)[:200]]
+        shutil.rmtree(dst, ignore_errors=True)
+        return n, pid, rc, lines
+    with cf.ThreadPoolExecutor(16) as ex:
+        res = list(ex.map(one, names))
+    lost = [(n, pid, rc, ls) for n, pid, rc, ls in res if rc != 1]
+    print(f"[seeded + {'+'.join(sorted(which))}] seeds={len(res)} still reported={len(res) - len(lost)} lost={len(lost)}")
+    for n, pid, rc, ls in lost:
+        print(f"  {n} ({pid}) exit={rc}: " + " | ".join(x[:200] for x in ls if x.startswith(("ANALYSIS", "note", "["))))
+    return 1 if lost else 0
+
+
 def main():
+    if "--seeded" in sys.argv:
+        return seeded([a for a in sys.argv[1:] if not a.startswith("--")] or ["rename"])
     args = [a for a in sys.argv[1:] if not a.startswith("--")]
     pids = PIDS
     for a in sys.argv[1:]:
